@@ -171,6 +171,136 @@ fn check(c: &Cand, st: &mut Stats) -> CheckResult {
     Ok(())
 }
 
+/// What the module sources declare, read with a small parser of our own (independent of
+/// numbat's decorator handling): unit name -> (metric prefixes, binary prefixes,
+/// [(alias, accepts short prefixes, accepts long prefixes)]). Per the documentation the unit
+/// name and un-annotated aliases accept long prefixes, `: short` short ones, `: both` both and
+/// `: none` none.
+struct Declared {
+    metric: bool,
+    binary: bool,
+    aliases: Vec<(String, bool, bool)>,
+}
+
+fn declared_from_sources() -> BTreeMap<String, Declared> {
+    fn walk(dir: &std::path::Path, out: &mut Vec<std::path::PathBuf>) {
+        if let Ok(rd) = std::fs::read_dir(dir) {
+            let mut entries: Vec<_> = rd.filter_map(|e| e.ok().map(|e| e.path())).collect();
+            entries.sort();
+            for p in entries {
+                if p.is_dir() {
+                    walk(&p, out);
+                } else if p.extension().and_then(|e| e.to_str()) == Some("nbt") {
+                    out.push(p);
+                }
+            }
+        }
+    }
+    let mut files = vec![];
+    walk(std::path::Path::new("/repo/numbat/modules"), &mut files);
+    let mut map = BTreeMap::new();
+    for f in files {
+        let Ok(text) = std::fs::read_to_string(&f) else { continue };
+        let mut metric = false;
+        let mut binary = false;
+        let mut aliases: Vec<(String, bool, bool)> = vec![];
+        let mut pending: Option<String> = None;
+        for raw in text.lines() {
+            let line = raw.trim();
+            if let Some(p) = &mut pending {
+                p.push(' ');
+                p.push_str(line);
+                if !line.contains(')') {
+                    continue;
+                }
+            }
+            let line: String = pending.take().unwrap_or_else(|| line.to_string());
+            if line.starts_with("@aliases(") && !line.contains(')') {
+                pending = Some(line);
+                continue;
+            }
+            if line.starts_with("@metric_prefixes") {
+                metric = true;
+            } else if line.starts_with("@binary_prefixes") {
+                binary = true;
+            } else if let Some(rest) = line.strip_prefix("@aliases(") {
+                let inner = rest.split(')').next().unwrap_or("");
+                for item in inner.split(',') {
+                    let item = item.trim();
+                    if item.is_empty() {
+                        continue;
+                    }
+                    let (name, kind) = match item.split_once(':') {
+                        Some((n, k)) => (n.trim(), k.trim()),
+                        None => (item, "long"),
+                    };
+                    let (s, l) = match kind {
+                        "short" => (true, false),
+                        "both" => (true, true),
+                        "none" => (false, false),
+                        _ => (false, true),
+                    };
+                    aliases.push((name.to_string(), s, l));
+                }
+            } else if line.starts_with('@') || line.starts_with('#') || line.is_empty() {
+                // other decorators, comments and blank lines keep the pending decorators
+            } else {
+                if let Some(rest) = line.strip_prefix("unit ") {
+                    let name: String = rest.chars().take_while(|c| c.is_alphanumeric() || *c == '_' || !c.is_ascii()).collect();
+                    let name = name.trim().to_string();
+                    if !name.is_empty() {
+                        // the unit name accepts long prefixes unless it is listed with its own annotation
+                        let mut all = vec![];
+                        if !aliases.iter().any(|a| a.0 == name) {
+                            all.push((name.clone(), false, true));
+                        }
+                        all.extend(aliases.iter().cloned());
+                        map.insert(name, Declared { metric, binary, aliases: all });
+                    }
+                }
+                metric = false;
+                binary = false;
+                aliases.clear();
+            }
+        }
+    }
+    map
+}
+
+/// Differences between the declarations in the module sources and what the session
+/// registered for the same unit (the table below is built from the former).
+fn registration_mismatches() -> Vec<String> {
+    let cat = prelude_catalogue();
+    let declared = declared_from_sources();
+    let mut out = vec![];
+    for u in &cat.units {
+        let d = &u.def;
+        let Some(decl) = declared.get(&d.name) else { continue };
+        if decl.metric != d.metric_prefixes || decl.binary != d.binary_prefixes {
+            out.push(format!(
+                "unit `{}` is declared with metric={} binary={} prefixes but registered with metric={} binary={}",
+                d.name, decl.metric, decl.binary, d.metric_prefixes, d.binary_prefixes
+            ));
+        }
+        for (alias, s, l) in &decl.aliases {
+            match d.aliases.iter().find(|a| &a.0 == alias) {
+                None => out.push(format!("alias `{alias}` of unit `{}` is declared but not registered", d.name)),
+                Some((_, rs, rl)) if rs != s || rl != l => out.push(format!(
+                    "alias `{alias}` of unit `{}` is declared to accept short={s} long={l} prefixes but registered with short={rs} long={rl}",
+                    d.name
+                )),
+                _ => {}
+            }
+        }
+        for (alias, _, _) in &d.aliases {
+            if !decl.aliases.iter().any(|a| &a.0 == alias) {
+                out.push(format!("alias `{alias}` of unit `{}` is registered but not declared", d.name));
+            }
+        }
+    }
+    out
+}
+
 fn build(_cfg: &Cfg) -> Vec<Cand> {
     let cat = prelude_catalogue();
     let mut out = vec![];
@@ -247,6 +377,18 @@ fn run(cfg: &Cfg) -> Report {
     rep.extra("candidates", json!(cands.len()));
     rep.extra("accepted", json!(cands.iter().filter(|c| c.accepted).count()));
     rep.exhaustive = Some(true);
+    // the decorators as written in the module sources against what the session registered
+    let mismatches = registration_mismatches();
+    rep.stats.evals(cat.units.len() as u64);
+    rep.extra("units_with_source_declaration", json!(declared_from_sources().len()));
+    if let Some(m) = mismatches.first() {
+        rep.violations.push(Violation {
+            sub: "registration".into(),
+            case: json!({"mismatch": m}),
+            failure: Failure::new("declared-acceptance-differs", format!("{m} ({} mismatches in total)", mismatches.len())),
+        });
+        return rep;
+    }
     rep.absorb(run_enumerated(cfg, "table", &cands, cand_json, check));
     // uniqueness over the whole table (single pass, not per candidate)
     if !rep.failed() {
@@ -279,6 +421,12 @@ fn run(cfg: &Cfg) -> Report {
 }
 
 fn replay(sub: &str, case: &J) -> CheckResult {
+    if sub == "registration" {
+        return match registration_mismatches().first() {
+            Some(m) => Err(Failure::new("declared-acceptance-differs", m.clone())),
+            None => Ok(()),
+        };
+    }
     if sub == "uniqueness" {
         let cat = prelude_catalogue();
         let ident = case["ident"].as_str().unwrap_or("");
